@@ -45,7 +45,22 @@ Fixpoint infer (r : infer_rule) (d : dkind) : ity :=
   | None => match d with DTuple l => ITuple (map (infer r) l) | _ => IFail end
   end.
 
+(* ---------- unhashable defaults: dataclasses refuses them as plain defaults ---------- *)
+Inductive ckind := KList | KDict | KSet.
+Definition ckind_eqb (a b : ckind) : bool :=
+  match a, b with KList, KList | KDict, KDict | KSet, KSet => true | _, _ => false end.
+(* what a signature default is, as far as hashing goes: hashable; a list/dict/set; any other unhashable object
+   (e.g. an instance of a non-frozen dataclass) *)
+Inductive mutk := Immut | MutC (k : ckind) | MutOther.
+Definition is_mut_other (m : mutk) : bool := match m with MutOther => true | _ => false end.
+(* copied = the container kinds the front-end wraps into default_factory=partial(copy.deepcopy, default);
+   everything else that is unhashable reaches dataclasses as a plain default: ValueError("mutable default ...") *)
+Definition refused (copied : list ckind) (m : mutk) : bool :=
+  match m with Immut => false | MutC k => negb (existsb (ckind_eqb k) copied) | MutOther => true end.
+
 Record facts := mkfacts {
+  f_main_copied : list ckind;       (* main: isinstance(parameter.default, (list, dict, set)) -> deepcopy factory *)
+  f_cf_copied : list ckind;         (* config_for: the same for the optional-field arm *)
   f_infer : infer_rule;             (* head of infer_type_annotation_from_default *)
   f_main_kwargs : list string;      (* keyword names main passes to helpers.field *)
   f_field_named : list string;      (* named parameters of helpers.field; every other keyword lands in custom_args *)
@@ -98,7 +113,7 @@ Section V.
   Record param := mkparam {
     p_name : string; p_kind : kind; p_ann : ann;
     p_default : option V;
-    p_mut : bool            (* the default is unhashable (list, non-frozen dataclass instance): dataclasses refuses it *)
+    p_mut : mutk            (* hashability of the default *)
   }.
   Definition sig := list param.
 
@@ -175,8 +190,10 @@ Section V.
   (* sorted(fields, key=_field_has_default): the key only looks at the default, which the field copies from the
      parameter, so the stable sort is done on the parameters *)
   Definition main_order (F : facts) (s : sig) : sig := if f_main_sorted F then sort_by pkey s else s.
+  Definition main_refuses (F : facts) (p : param) : bool := refused (f_main_copied F) (p_mut p).
+  Definition cf_refuses (F : facts) (p : param) : bool := refused (f_cf_copied F) (p_mut p).
   Definition main_field (F : facts) (p : param) : fld :=
-    mkfld (p_name p) (p_ann p) (p_default p) (p_mut p)
+    mkfld (p_name p) (p_ann p) (p_default p) (main_refuses F p)
           (existsb (kind_eqb (p_kind p)) (f_main_pos_kinds F))
           (custom_of F (f_main_kwargs F)).
   Definition main_fields (F : facts) (s : sig) : list fld := map (main_field F) (main_order F s).
@@ -206,7 +223,7 @@ Section V.
   Definition cf_field (F : facts) (over : list (string * V)) (p : param) : fld :=
     let d := eff_default over p in
     mkfld (p_name p) (p_ann p) d
-          (match lookup over (p_name p) with Some _ => false | None => p_mut p end)
+          (match lookup over (p_name p) with Some _ => false | None => cf_refuses F p end)
           false
           (custom_of F (match d with None => f_cf_req_kwargs F | Some _ => f_cf_opt_kwargs F end)).
   (* neither annotated nor defaulted: "Don't know what the type of field is! Ignoring this argument." *)
@@ -313,7 +330,7 @@ Arguments mkfld {V}. Arguments fl_name {V}. Arguments fl_ann {V}. Arguments fl_d
 Arguments fl_pos {V}. Arguments fl_custom {V}. Arguments fl_has_def {V}. Arguments order_ok {V}. Arguments setup {V}.
 Arguments mkcall {V}. Arguments c_pos {V}. Arguments c_kw {V}.
 Arguments from_kw {V}. Arguments bind_params {V}. Arguments kw_names_ok {V}. Arguments bind_call {V}.
-Arguments pkey {V}. Arguments main_order {V}. Arguments main_field {V}. Arguments main_fields {V}.
+Arguments main_refuses {V}. Arguments cf_refuses {V}. Arguments pkey {V}. Arguments main_order {V}. Arguments main_field {V}. Arguments main_fields {V}.
 Arguments main_call {V}. Arguments main_run {V}.
 Arguments eff_default {V}. Arguments cf_field {V}. Arguments cf_untyped {V}. Arguments cf_step {V}. Arguments cf_fields {V}.
 Arguments partial_call {V}. Arguments cf_run {V}.
